@@ -18,6 +18,26 @@ def _p(name, body, inputs=None, accounts=None, **kw) -> Item:
     return Item(Prog(accounts=acc, calldata=[Sym("cd0", 256), Sym("cd1", 256)], name=name, **kw), inputs or [{"cd0": 0, "cd1": 0}, {"cd0": 1, "cd1": 5}], key=f"probe:{name}")
 
 
+def c02_probes() -> list[Item]:
+    """Branches that halmos' shortcuts for 'practically infeasible' conditions might prune although an input takes them."""
+    out = []
+    # h = keccak(cd1); if (h + 5 + y < h) return 2 else return 1, the three-term sum written in every association:
+    # for y = 2^256 - 6 the sum wraps to h - 1.  (The shortcut for `hash + small constant < hash`, the overflow of a dynamic
+    # array over the end of storage, must not fire when the sum has a further, unbounded, term.)
+    H = [("PUSH", 32), "CALLDATALOAD", ("PUSH", 0x200), "MSTORE", ("PUSH", 32), ("PUSH", 0x200), "SHA3"]
+    Y = [("PUSH", 0), "CALLDATALOAD"]
+    sums = {"h5y": H + [("PUSH", 5), "ADD"] + Y + ["ADD"], "y5h": Y + [("PUSH", 5), "ADD"] + H + ["ADD"], "yh5": Y + H + ["ADD", ("PUSH", 5), "ADD"],
+            "5hy": [("PUSH", 5)] + H + ["ADD"] + Y + ["ADD"]}
+    for nm, summ in sums.items():
+        body = H + summ + ["LT", ("PUSHL", "wrap"), "JUMPI", ("PUSH", 1)] + RET + [("LABEL", "wrap"), ("PUSH", 2)] + RET
+        out.append(_p(f"hash-plus-const-plus-symbol-wraps-{nm}", body,
+                      inputs=[{"cd0": 0, "cd1": 3}, {"cd0": (1 << 256) - 6, "cd1": 3}, {"cd0": (1 << 256) - 6, "cd1": 0}, {"cd0": 1 << 255, "cd1": 1}, {"cd0": (1 << 256) - 1, "cd1": 2}]))
+    # the two-term form is the documented assumption (hashes lie below 2^256 - 2^64): no input can take the branch
+    body = H + H + [("PUSH", 5), "ADD", "LT", ("PUSHL", "wrap"), "JUMPI", ("PUSH", 1)] + RET + [("LABEL", "wrap"), ("PUSH", 2)] + RET
+    out.append(_p("hash-plus-const-wraps", body, inputs=[{"cd0": 0, "cd1": 3}, {"cd0": 7, "cd1": 0}]))
+    return out
+
+
 def c01_probes() -> list[Item]:
     out = []
     # MSIZE counts memory that was only read (MLOAD at 0x40 expands memory to 0x60)
@@ -71,6 +91,7 @@ def c01_probes() -> list[Item]:
                    ("PUSH", 20), ("PUSH", 0), "CALLDATALOAD", "GT", ("PUSHL", "a"), "JUMPI", ("PUSH", 0xB)] + RET + [("LABEL", "a"), ("PUSH", 0xA)] + RET,
                   inputs=[{"cd0": 5, "cd1": 0}, {"cd0": 15, "cd1": 0}, {"cd0": 25, "cd1": 0}, {"cd0": 2**255, "cd1": 0}, {"cd0": 20, "cd1": 0}]))
     # a loop whose head is the JUMPDEST at pc 0: the backward JUMP must land there
+    out += c02_probes()
     out.append(_p("loop-head-at-pc0",
                   [("LABEL", "h"), ("PUSH", 0), "MLOAD", ("PUSHL", "x"), "JUMPI", ("PUSH", 1), ("PUSH", 0), "MSTORE", ("PUSHL", "h"), "JUMP", "INVALID",
                    ("LABEL", "x"), ("PUSH", 0xC1)] + RET))
